@@ -123,7 +123,7 @@ def shard_random(n, sd):
               suppress_health_check=list(HealthCheck), report_multiple_bugs=False)
     @given(st.one_of(gen.body(min_len=3, max_len=26, profile=gen.MEM_PROFILE),
                      gen.body(min_len=3, max_len=18, profile=gen.MEM_PROFILE, allow_split=False),
-                     gen.corpus_block(), gen.unused_hashes_block(), gen.kept_loads_block(), gen.two_store_block()),
+                     gen.corpus_block(), gen.unused_hashes_block(), gen.kept_loads_block(), gen.two_store_block(), gen.dead_load_by_rule_block()),
            st.sampled_from(MODES), st.booleans(), st.integers(0, 2 ** 32))
     def prop(instrs, mode, rules, s):
         av = argv_for(mode, rules)
